@@ -124,7 +124,9 @@ def _replace_tail(body: List[ast.stmt], mk) -> List[ast.stmt]:
     out = list(body[:-1])
     last = body[-1]
     if isinstance(last, ast.Return):
-        out.append(ast.copy_location(mk(last.value), last))
+        made = mk(last.value)
+        for m_ in (made if isinstance(made, list) else [made]):
+            out.append(ast.copy_location(m_, last))
     elif isinstance(last, ast.With):
         out.append(ast.copy_location(ast.With(items=last.items, body=_replace_tail(last.body, mk)), last))
     else:
@@ -303,6 +305,14 @@ class _Expander(ast.NodeTransformer):
 
         def mk(rv):
             if kind == "assign":
+                tg = targets[0] if len(targets) == 1 else None
+                if isinstance(tg, ast.Tuple) and isinstance(rv, ast.Tuple) and len(tg.elts) == len(rv.elts) \
+                        and not any(isinstance(x, ast.Starred) for x in tg.elts + rv.elts):
+                    # `a, b = _h(..)` with `return x, y`: element-wise `a = x; b = y` when no target is read by a later element
+                    ttxt = {ast.unparse(t) for t in tg.elts} | {n.id for t in tg.elts for n in ast.walk(t) if isinstance(n, ast.Name)}
+                    later_reads = {ast.unparse(n) for e in rv.elts[1:] for n in ast.walk(e) if isinstance(n, (ast.Name, ast.Attribute, ast.Subscript))}
+                    if not (ttxt & later_reads):
+                        return [ast.Assign(targets=[copy.deepcopy(t)], value=e) for t, e in zip(tg.elts, rv.elts)]
                 return ast.Assign(targets=copy.deepcopy(targets), value=rv)
             if kind == "return":
                 return ast.Return(value=rv)
